@@ -50,6 +50,8 @@ type Config struct {
 	Concrete        map[string]uint64 // replay: fixed values for nondets (engine concrete mode)
 	ConcreteChoices []int
 	RecordQueries   bool
+	SlowQuery       time.Duration
+	SlowDir         string
 	Negate          bool // twin run: vAssert conditions are negated (vacuity guard)
 }
 
@@ -641,4 +643,18 @@ func (r *Run) wantSample() bool {
 func (e *Engine) SetConfig(c Config) {
 	e.Cfg = c
 	e.resetSummary()
+}
+
+var slowN int
+
+func (e *Engine) dumpSlow(script string, d time.Duration, res string) {
+	e.mu.Lock()
+	slowN++
+	n := slowN
+	e.mu.Unlock()
+	if n > 40 {
+		return
+	}
+	os.MkdirAll(e.Cfg.SlowDir, 0o755)
+	os.WriteFile(fmt.Sprintf("%s/slow_%03d_%s_%dms.smt2", e.Cfg.SlowDir, n, res, d.Milliseconds()), []byte(script), 0o644)
 }
